@@ -53,7 +53,9 @@ RULE = ("db14: one case = a fresh real DB driven through 15-45 steps (session cr
         "against the fold of the whole log: KeepAlive, expiry with records, no resurrection; 6 leader changes per run with four live sessions "
         "of 200 ms / 600 ms / 3 s / 30 s and distinct identities created in varying order, on both leader-change paths: restored metadata per "
         "session (hook VerifSessionInfo), each session expiring by its own timeout, upper bound skipped when a calibration timer shows the "
-        "machine late); every session "
+        "machine late; 4 runs of a second end of a session (duplicate CloseSession / its expiry timer) while the first clean-up entry is in "
+        "flight on an rf-2 leader with held follower acks and a third party re-creating the key in between: at most one clean-up entry per "
+        "session end, the third party's record stays); every session "
         "end is monitored on the leader's WAL (one log entry deleting all owned records, the session key and the shadow range) and a real new "
         "leader is started from the log prefix ending at each entry of the cleanup (alive => all records, gone => none); distinct by scenario "
         "parameters")
